@@ -124,7 +124,7 @@ impl Callback for CsvDump {
                     "tx_in" => &self.txin_writer,
                     _ => &self.txout_writer,
                 };
-                crate::verif::ev("rename", &format!("\"file\":\"{}.csv.tmp\",\"to\":\"{}-{}-{}.csv\",\"buffered\":{}", f, f, self.start_height, block_height, w.buffer().len()));
+                crate::verif::ev("rename", &format!("\"file\":\"{}.csv.tmp\",\"to\":\"{}-{}-{}.csv\",\"buffered\":{},\"ino\":{}", f, f, self.start_height, block_height, w.buffer().len(), crate::verif::ino(&self.dump_folder.as_path().join(format!("{}.csv.tmp", f)))));
             }
             fs::rename(
                 self.dump_folder.as_path().join(format!("{}.csv.tmp", f)),
@@ -133,7 +133,7 @@ impl Callback for CsvDump {
                     .join(format!("{}-{}-{}.csv", f, self.start_height, block_height)),
             )?;
             #[cfg(rbp_verif)]
-            crate::verif::ev("renamed", &format!("\"file\":\"{}.csv.tmp\"", f));
+            crate::verif::ev("renamed", &format!("\"file\":\"{}.csv.tmp\",\"ino\":{}", f, crate::verif::ino(&self.dump_folder.as_path().join(format!("{}-{}-{}.csv", f, self.start_height, block_height)))));
         }
 
         info!(target: "callback", "Done.\nDumped blocks from height {} to {}:\n\
